@@ -6957,6 +6957,8 @@ class Rect(Shape):
             self.rx = self.rx.value(relative_length=width, **kwargs)
         if isinstance(self.ry, Length):
             self.ry = self.ry.value(relative_length=height, **kwargs)
+        # Sizes or radii that carried units could not be compared before: clamp the radii now.
+        self._validate_rect()
         return self
 
     def is_degenerate(self):
